@@ -6,6 +6,6 @@ export GOFLAGS=-mod=mod GOPROXY=off GOSUMDB=off GOTOOLCHAIN=local
 mkdir -p cases evidence replays harness/bin
 cp /repo/go.sum harness/go.sum
 ( cd coq && (echo "-R . GL"; find . -name '*.v' | sed 's|^\./||' | sort) > _CoqProject \
-  && coq_makefile -f _CoqProject -o Makefile && timeout 14000 make -j16 )
+  && coq_makefile -f _CoqProject -o Makefile && ( timeout 14000 make -k -j16 || echo "setup: some Coq targets failed; the checks that need them will report it" ) )
 ( cd harness && for d in cmd/*/; do b=$(basename "$d"); go build -tags verif -o bin/$b ./cmd/$b; done )
 echo setup done
